@@ -88,7 +88,12 @@ def check(pid, tier='quick', seed=0):
     # a canary that verifies marks the check broken -- unless the clause it shadows is itself refuted (then the code
     # has changed into the canary's wrong variant: that is a violation, reported through the refuted clause)
     status_of = {(v.fn, v.name): v.status for v in verdicts if not v.status.startswith('canary')}
-    broken = [v for v in verdicts if v.status == 'canary-verified' and status_of.get((v.fn, v.name)) != 'refuted']
+    # a refuted obligation is assumed for the rest of its path (so that later obligations are not reported twice); if it is
+    # definitely false the path condition becomes contradictory and everything after it verifies, canaries included. A
+    # canary of a function that has a refuted obligation therefore says nothing about the checker.
+    unsettled_fns = {v.fn for v in verdicts if v.status == 'refuted'}
+    broken = [v for v in verdicts if v.status == 'canary-verified' and status_of.get((v.fn, v.name)) != 'refuted'
+              and v.fn not in unsettled_fns]
     obligations = [v for v in verdicts if v.kind != 'canary' and not v.status.startswith('canary')]
     canaries = [v for v in verdicts if v.status.startswith('canary')]
     discharged = [v for v in obligations if v.status == 'discharged']
